@@ -117,7 +117,11 @@ def write_phase(scn, crash_at=None, log=None, items=None) -> WriteResult:
             # convenience function: no file seam to own, fault-free only
             if scn["level"] != "vbs":
                 raise ValueError("func api is vbs level only")
-            res.image = m["mciipm"].vbs_list_to_bytes(items, blocked=blocked)
+            try:
+                res.image = m["mciipm"].vbs_list_to_bytes(items, blocked=blocked)
+            except Exception as ex:
+                res.error = (type(ex).__name__, str(ex)[:200])
+                return res
             res.snapshots.append(res.image)
             return res
         st = Storage(scn.get("storage", "sim"), crash_at=crash_at, log=log)
